@@ -7,7 +7,7 @@ From PV.Model Require Import Machine Mapping Views Headers Convert.
 From PV.Model Require Dirs Relocs Rich Exports Imports Resources.
 From PV.gen Require Import Layout.
 From PV.Spec Require Import MappingSpec ConvertSpec ConvertSimSpec.
-From PV.Proofs Require ConvertProofs ConvertSimProofs.
+From PV.Proofs Require ConvertProofs ConvertSimProofs ConvertResFrame ConvertSimMore.
 Import ConvertProofs.
 
 (* (4) no panic and no out-of-bounds access on ANY accepted input: every buffer, either format,
@@ -482,19 +482,208 @@ Theorem C06_check_sum_not_preserved :
 Proof. exact ConvertSimProofs.check_sum_not_preserved. Qed.
 Print Assumptions C06_check_sum_not_preserved.
 
+(* ======================================================================================================
+   Third layer: the parts of "every directory query gives equal results on both" that the second layer left
+   open - the resource tree walkers, the debug entry payloads, the export lookups that swallow read errors and the
+   export iterators, unwind_info / function_bytes, and the converse direction for slices. *)
+
+(* (10) resources.  The frame lemma of Model/Resources.v: every parser of the resources API reads the section below
+   rs_len only, tests alignments 2 and 4 of (address + offset) only, and otherwise uses rs_len and rs_va; so two
+   sections with the same length, the same directory RVA, the same bytes below the length and addresses congruent
+   modulo 4 ([rsec_same]) give EQUAL results for every query ([res_queries_equal]: root, the full traversal with
+   names / kinds / data entries / DataEntry::bytes / size / code page, fsck, the tree printer, find_resources,
+   find_resource, find_resource_ex, find (path), manifest, version_info, the icon/cursor group listing, GroupResource::new,
+   image lookup and the .ico/.cur writer, and the bytes of every region inside the section).  Offsets are relative to
+   the section, so "equal" is literal equality. *)
+Theorem C06_resources_frame : forall s s', rsec_same s s' -> res_queries_equal s s'.
+Proof. exact ConvertResFrame.resources_frame. Qed.
+Print Assumptions C06_resources_frame.
+
+(* Pe::resources() on the two views, outside F37: when the directory lies in stored bytes (the file view did not have to
+   clamp: rs_len s = Size) and the section that holds it is stored at a file offset congruent to its VirtualAddress
+   modulo 4 ([prd_va_congruent]; the buffers themselves congruent modulo 4), the mapped view hands the parsers THE SAME
+   section, hence every resource query is equal. *)
+Theorem C06_resources_queries_equal : forall img V soh soi secs, conv_setting img soh soi secs V ->
+  forall aF aV w b, let vf := file_view aF w b soh soi secs img in let vv := mapped_view aV w b soh soi secs V in
+  raw_tail_not_mapped (byte_at img) secs = false ->
+  forall va size s, align_compat 4 aF aV = true -> prd_va_congruent 4 secs va = true ->
+  view_resources vf (Some (va, size)) = Ok s -> Resources.rs_len s = size ->
+  exists s', view_resources vv (Some (va, size)) = Ok s' /\ rsec_same s s' /\ res_queries_equal s s'.
+Proof. exact ConvertSimMore.resources_queries_sim. Qed.
+Print Assumptions C06_resources_queries_equal.
+
+(* both hypotheses are necessary (well-formed images outside F37, buffers at address 0):
+   Size reaching into the virtual-only tail - the file view clamps the section to the stored bytes, the mapped view does not *)
+Theorem C06_resources_len_needed :
+  conv_setting ConvertSimMore.rl_img 4 24 ConvertSimMore.rl_secs ConvertSimMore.rl_V /\
+  raw_tail_not_mapped (byte_at ConvertSimMore.rl_img) ConvertSimMore.rl_secs = false /\
+  align_compat 4 0 0 = true /\ prd_va_congruent 4 ConvertSimMore.rl_secs 8 = true /\
+  exists s s', view_resources (file_view 0 W32 4194304 4 24 ConvertSimMore.rl_secs ConvertSimMore.rl_img) (Some (8, 16)) = Ok s /\
+    view_resources (mapped_view 0 W32 4194304 4 24 ConvertSimMore.rl_secs ConvertSimMore.rl_V) (Some (8, 16)) = Ok s' /\
+    Resources.rs_len s = 8 /\ Resources.rs_len s' = 16 /\ Resources.fsck s = Err EBounds /\ Resources.fsck s' = Ok tt.
+Proof. exact ConvertSimMore.resources_len_needed. Qed.
+Print Assumptions C06_resources_len_needed.
+
+(* PointerToRawData not congruent to VirtualAddress modulo 4 - the directory is misaligned in the file buffer only *)
+Theorem C06_resources_congruence_needed :
+  conv_setting ConvertSimMore.rc_img 6 24 ConvertSimMore.rc_secs ConvertSimMore.rc_V /\
+  raw_tail_not_mapped (byte_at ConvertSimMore.rc_img) ConvertSimMore.rc_secs = false /\
+  align_compat 4 0 0 = true /\ prd_va_congruent 4 ConvertSimMore.rc_secs 8 = false /\
+  exists s s', view_resources (file_view 0 W32 4194304 6 24 ConvertSimMore.rc_secs ConvertSimMore.rc_img) (Some (8, 16)) = Ok s /\
+    view_resources (mapped_view 0 W32 4194304 6 24 ConvertSimMore.rc_secs ConvertSimMore.rc_V) (Some (8, 16)) = Ok s' /\
+    Resources.rs_len s = 16 /\ Resources.rs_len s' = 16 /\ Resources.fsck s = Err EMisaligned /\ Resources.fsck s' = Ok tt.
+Proof. exact ConvertSimMore.resources_congruence_needed. Qed.
+Print Assumptions C06_resources_congruence_needed.
+
+(* (11) debug entry payloads.  Dir::data slices the buffer at PointerToRawData on a file and at AddressOfRawData on a
+   mapped image.  For a CONSISTENT entry ([debug_entry_consistent], decidable: rva_to_file_offset AddressOfRawData =
+   Ok PointerToRawData and the payload lies inside the headers or inside the agreeing part of its section - min(VS,SRD),
+   the whole raw data when the raw tail is zero padding) both exist and hold the same bytes.  d' is the entry as decoded
+   from the view (equal field values by C06_debug_equal).  No F37 hypothesis: the predicate measures against agree_len. *)
+Theorem C06_debug_payload_equal : forall img V soh soi secs, conv_setting img soh soi secs V ->
+  forall aF aV w b, let vf := file_view aF w b soh soi secs img in let vv := mapped_view aV w b soh soi secs V in
+  forall d d', ddir_vals d' = ddir_vals d -> debug_entry_consistent (byte_at img) soh secs d = true ->
+  Dirs.dir_data vf d = Some {| r_off := Dirs.dd_ptr d; r_len := Dirs.dd_size d |} /\
+  Dirs.dir_data vv d' = Some {| r_off := Dirs.dd_addr d; r_len := Dirs.dd_size d |} /\
+  region_sim (byte_at img) (byte_at V) {| r_off := Dirs.dd_ptr d; r_len := Dirs.dd_size d |} {| r_off := Dirs.dd_addr d; r_len := Dirs.dd_size d |}.
+Proof. exact ConvertSimMore.debug_payload_sim. Qed.
+Print Assumptions C06_debug_payload_equal.
+
+(* the decoded entry (Dir::entry: CodeView NB10 / RSDS with pdb_file_name, MISC, POGO with Pgo::iter() run to exhaustion,
+   unknown types with their raw data), results and errors alike, as values ([entry_vals]: the bytes of the borrowed structures
+   and strings) - when moreover the payload has the same alignment modulo 4 in both buffers *)
+Theorem C06_debug_entry_equal : forall img V soh soi secs, conv_setting img soh soi secs V ->
+  forall aF aV w b, let vf := file_view aF w b soh soi secs img in let vv := mapped_view aV w b soh soi secs V in
+  forall d d', align_compat 4 aF aV = true -> prd_va_congruent 4 secs (Dirs.dd_addr d) = true ->
+  ddir_vals d' = ddir_vals d -> debug_entry_consistent (byte_at img) soh secs d = true ->
+  res_map (entry_vals (byte_at img)) (Dirs.dir_entry vf d) = res_map (entry_vals (byte_at V)) (Dirs.dir_entry vv d').
+Proof. exact ConvertSimMore.debug_entry_sim. Qed.
+Print Assumptions C06_debug_entry_equal.
+
+(* the whole directory (ds, ds' as given by C06_debug_equal): every entry, and Debug::pdb_file_name *)
+Theorem C06_debug_entries_equal : forall img V soh soi secs, conv_setting img soh soi secs V ->
+  forall aF aV w b, let vf := file_view aF w b soh soi secs img in let vv := mapped_view aV w b soh soi secs V in
+  align_compat 4 aF aV = true -> forall ds ds', map ddir_vals ds' = map ddir_vals ds ->
+  forallb (fun d => debug_entry_consistent (byte_at img) soh secs d && prd_va_congruent 4 secs (Dirs.dd_addr d)) ds = true ->
+  map (fun d => res_map (entry_vals (byte_at img)) (Dirs.dir_entry vf d)) ds =
+    map (fun d => res_map (entry_vals (byte_at V)) (Dirs.dir_entry vv d)) ds' /\
+  option_map (region_bytes (byte_at img)) (Dirs.pdb_file_name vf ds) = option_map (region_bytes (byte_at V)) (Dirs.pdb_file_name vv ds').
+Proof. exact ConvertSimMore.debug_entries_sim. Qed.
+Print Assumptions C06_debug_entries_equal.
+
+(* consistency is necessary: a payload in the overlay behind the last section (where linkers and signing tools put debug
+   data that is not mapped).  The file has it; the mapped view has nothing at AddressOfRawData = 16 (beyond SizeOfImage)
+   and serves the HEADERS for AddressOfRawData = 0 *)
+Theorem C06_debug_consistent_needed :
+  conv_setting ConvertSimMore.dbw_img 4 12 ConvertSimMore.dbw_secs ConvertSimMore.dbw_V /\
+  raw_tail_not_mapped (byte_at ConvertSimMore.dbw_img) ConvertSimMore.dbw_secs = false /\
+  debug_entry_consistent (byte_at ConvertSimMore.dbw_img) 4 ConvertSimMore.dbw_secs (ConvertSimMore.dbw_d 16) = false /\
+  debug_entry_consistent (byte_at ConvertSimMore.dbw_img) 4 ConvertSimMore.dbw_secs (ConvertSimMore.dbw_d 0) = false /\
+  option_map (region_bytes (byte_at ConvertSimMore.dbw_img))
+    (Dirs.dir_data (file_view 0 W32 4194304 4 12 ConvertSimMore.dbw_secs ConvertSimMore.dbw_img) (ConvertSimMore.dbw_d 16)) = Some [7; 7; 7; 7] /\
+  Dirs.dir_data (mapped_view 0 W32 4194304 4 12 ConvertSimMore.dbw_secs ConvertSimMore.dbw_V) (ConvertSimMore.dbw_d 16) = None /\
+  option_map (region_bytes (byte_at ConvertSimMore.dbw_V))
+    (Dirs.dir_data (mapped_view 0 W32 4194304 4 12 ConvertSimMore.dbw_secs ConvertSimMore.dbw_V) (ConvertSimMore.dbw_d 0)) = Some [77; 90; 0; 0].
+Proof. exact ConvertSimMore.debug_consistent_needed. Qed.
+Print Assumptions C06_debug_consistent_needed.
+
+(* (12) exports: name_linear skips a name whose derva_c_str fails, so it is monotone only when every entry of the name
+   table is readable on the file view ([names_readable], decidable) ... *)
+Theorem C06_export_name_linear_equal : forall img V soh soi secs, conv_setting img soh soi secs V ->
+  forall aF aV w b, let vf := file_view aF w b soh soi secs img in let vv := mapped_view aV w b soh soi secs V in
+  raw_tail_not_mapped (byte_at img) secs = false ->
+  forall dd t nm e, align_compat 4 aF aV = true -> Exports.view_by vf dd = Ok t ->
+  names_readable (Exports.view_cstr vf) t = true ->
+  Exports.name_linear (Exports.view_cstr vf) t nm = Ok e ->
+  Exports.view_by vv dd = Ok t /\ Exports.name_linear (Exports.view_cstr vv) t nm = Ok e.
+Proof. exact ConvertSimMore.name_linear_sim. Qed.
+Print Assumptions C06_export_name_linear_equal.
+
+(* ... and is NOT monotone without it: a well-formed image outside F37 whose first name RVA lies in the virtual-only zero
+   tail of its section (unreadable through the file view, the empty string through the mapped view); looking up "" finds
+   the second export on the file and the first on the view *)
+Theorem C06_name_linear_not_monotone :
+  conv_setting (ConvertSimMore.nl_img 86) 4 96 ConvertSimMore.nl_secs (ConvertSimMore.nl_V 86) /\
+  raw_tail_not_mapped (byte_at (ConvertSimMore.nl_img 86)) ConvertSimMore.nl_secs = false /\
+  align_compat 4 0 0 = true /\
+  Exports.view_by (ConvertSimMore.nl_vf 86) (Some (16, 40)) = Ok ConvertSimMore.nl_t /\
+  Exports.view_by (ConvertSimMore.nl_vv 86) (Some (16, 40)) = Ok ConvertSimMore.nl_t /\
+  names_readable (Exports.view_cstr (ConvertSimMore.nl_vf 86)) ConvertSimMore.nl_t = false /\
+  Exports.name_linear (Exports.view_cstr (ConvertSimMore.nl_vf 86)) ConvertSimMore.nl_t [] = Ok (Exports.Symbol 2000) /\
+  Exports.name_linear (Exports.view_cstr (ConvertSimMore.nl_vv 86)) ConvertSimMore.nl_t [] = Ok (Exports.Symbol 1000).
+Proof. exact ConvertSimMore.name_linear_image_witness. Qed.
+Print Assumptions C06_name_linear_not_monotone.
+
+(* import (by name with a hint / by ordinal): hint_name falls back to the name search when hint(h) or name_of_hint(h) fails,
+   so it is monotone when both succeed on the file view ([import_readable], decidable) *)
+Theorem C06_get_export_import_equal : forall img V soh soi secs, conv_setting img soh soi secs V ->
+  forall aF aV w b, let vf := file_view aF w b soh soi secs img in let vv := mapped_view aV w b soh soi secs V in
+  raw_tail_not_mapped (byte_at img) secs = false ->
+  forall dd t i e, align_compat 4 aF aV = true -> Exports.view_by vf dd = Ok t ->
+  import_readable (Exports.view_cstr vf) t i = true ->
+  Exports.get_export_import vf dd i = Ok e -> Exports.get_export_import vv dd i = Ok e.
+Proof. exact ConvertSimMore.get_export_import_sim. Qed.
+Print Assumptions C06_get_export_import_equal.
+
+(* the three iterators and check_sorted: item by item, whatever the file view yields the mapped view yields
+   ([res_le]; an item that is an error on the file may be a value on the view) *)
+Theorem C06_export_iterators_equal : forall img V soh soi secs, conv_setting img soh soi secs V ->
+  forall aF aV w b, let vf := file_view aF w b soh soi secs img in let vv := mapped_view aV w b soh soi secs V in
+  raw_tail_not_mapped (byte_at img) secs = false ->
+  forall dd t, align_compat 4 aF aV = true -> Exports.view_by vf dd = Ok t ->
+  Exports.view_by vv dd = Ok t /\
+  Forall2 res_le (Exports.iter (Exports.view_cstr vf) t) (Exports.iter (Exports.view_cstr vv) t) /\
+  Forall2 (fun p p' => res_le (fst p) (fst p') /\ res_le (snd p) (snd p'))
+    (Exports.iter_names (Exports.view_cstr vf) t) (Exports.iter_names (Exports.view_cstr vv) t) /\
+  Forall2 (fun p p' => res_le (fst p) (fst p') /\ snd p' = snd p)
+    (Exports.iter_name_indices (Exports.view_cstr vf) t) (Exports.iter_name_indices (Exports.view_cstr vv) t) /\
+  res_le (Exports.check_sorted (Exports.view_cstr vf) t) (Exports.check_sorted (Exports.view_cstr vv) t).
+Proof. exact ConvertSimMore.export_iters_sim. Qed.
+Print Assumptions C06_export_iterators_equal.
+
+(* (13) exception directory: Function::bytes and Function::unwind_info (the UNWIND_INFO header with its CountOfCodes
+   slots; [unwind_vals]: version, flags, size of prolog, count, frame register / offset, the code slots) *)
+Theorem C06_function_bytes_equal : forall img V soh soi secs, conv_setting img soh soi secs V ->
+  forall aF aV w b, let vf := file_view aF w b soh soi secs img in let vv := mapped_view aV w b soh soi secs V in
+  raw_tail_not_mapped (byte_at img) secs = false ->
+  forall f r, Dirs.function_bytes vf f = Ok r ->
+  exists r', Dirs.function_bytes vv f = Ok r' /\ r_off r' = Dirs.rf_begin f /\ region_sim (byte_at img) (byte_at V) r r'.
+Proof. exact ConvertSimMore.function_bytes_sim. Qed.
+Print Assumptions C06_function_bytes_equal.
+
+Theorem C06_unwind_info_equal : forall img V soh soi secs, conv_setting img soh soi secs V ->
+  forall aF aV w b, let vf := file_view aF w b soh soi secs img in let vv := mapped_view aV w b soh soi secs V in
+  raw_tail_not_mapped (byte_at img) secs = false ->
+  forall f r, Dirs.unwind_info vf f = Ok r ->
+  exists r', Dirs.unwind_info vv f = Ok r' /\ r_off r' = Dirs.rf_unwind f /\ region_sim (byte_at img) (byte_at V) r r' /\
+    unwind_vals (byte_at img) r = unwind_vals (byte_at V) r'.
+Proof. exact ConvertSimMore.unwind_info_sim. Qed.
+Print Assumptions C06_unwind_info_equal.
+
+(* (14) the converse direction, for slices: the file view serves EXACTLY those slices of the mapped view that are stored
+   ([stored_at secs rva ms]: rva lies in a section and section offset + ms <= SizeOfRawData) - for buffers congruent
+   modulo the alignment and a section stored congruently to its VirtualAddress.  Everything else the view serves
+   (headers, virtual-only zero tails, gaps between sections) fails on the file.  No F37 hypothesis. *)
+Theorem C06_slice_converse : forall img V soh soi secs, conv_setting img soh soi secs V ->
+  forall aF aV w b, let vf := file_view aF w b soh soi secs img in let vv := mapped_view aV w b soh soi secs V in
+  forall rva ms al, align_compat al aF aV = true -> prd_va_congruent al secs rva = true ->
+  ((exists rf, slice vf rva ms al = Ok rf) <-> ((exists rv, slice vv rva ms al = Ok rv) /\ stored_at secs rva ms = true)).
+Proof. exact ConvertSimMore.slice_iff. Qed.
+Print Assumptions C06_slice_converse.
+
 (* OPEN: C06_directory_queries_equal : every directory query returns equal results on PeFile(F) and
    PeView(to_view F).  Proved above, file => view, outside F37 (and inside it under [inside_agree]):
-   every typed read; exports (tables, names, lookup by ordinal and by name); imports (descriptors, dll names,
-   thunk arrays, import entries, IAT); base relocations; exception table; debug directory table; TLS; load
-   config; the resource section; the Rich structure (both directions, it is an equality); the header fields.
-   Still open: (a) the converse direction view => file, false in general (the view also reads headers, zero
-   tails and gaps) - no statement of the exact set of RVAs where it holds; (b) the resource tree walkers on the
-   two resource sections (need a frame lemma for Model/Resources.v: every parser reads below rs_len only);
-   (c) the debug entry payloads (code_view / dbg / pgo: dir_data uses PointerToRawData on a file and
-   AddressOfRawData on a view, equal only when the two fields point at the same stored bytes);
-   (d) Exports name_linear / iterators and unwind_info / function_bytes of the exception directory (thin
-   over the typed reads, not written down); (e) lookups that IGNORE read errors (name_linear skips a name
-   whose derva_c_str fails; on the view that read may succeed) are not monotone.
+   every typed read; exports (tables, names, lookup by ordinal and by name, name_linear under names_readable, the three
+   iterators, check_sorted, import under import_readable); imports (descriptors, dll names, thunk arrays, import entries, IAT); base relocations;
+   exception table, function bytes, unwind info; debug directory table, payloads and decoded entries (consistent entries);
+   TLS; load config; resources (the section and EVERY query of the resources API, when the directory lies in stored bytes
+   and the section is stored congruently modulo 4); the Rich structure (an equality); the header fields; for slices the
+   exact converse (C06_slice_converse).
+   Still open: (a) the converse direction beyond slices: the typed readers with a sentinel (derva_c_str, derva_slice_f/_s)
+   can run from stored bytes into the virtual-only tail on the view and stop at the end of the raw data on the file, so
+   view => file for them needs the terminator inside the stored bytes - not written down; hence "equal" for the directory
+   parsers is proved as "whatever the file view returns the mapped view returns", not as an equivalence;
+   (b) the VA-path converse and to_file-side queries (PeView::to_file output re-parsed).
    Not equal by design: security directory (file only), check_sum. *)
 
 Example C06_nonvacuous :
@@ -504,3 +693,58 @@ Example C06_nonvacuous :
   to_file [1;2;0;0;3;4;0;0;5;6;0;0] 2 12 ex_secs = Ok [1;2;3;4;5;6;0;0] /\
   slice_file 0 (lenN ex_img) ex_secs 5 0 1 = Ok {| r_off := 3; r_len := 1 |}.
 Proof. exact ConvertProofs.nonvacuous_example. Qed.
+
+(* non-vacuity of the third layer: concrete well-formed images on which the hypotheses of the implications hold *)
+Example C06_resources_nonvacuous :
+  conv_setting ConvertSimMore.rx_img 4 52 ConvertSimMore.rx_secs ConvertSimMore.rx_V /\
+  raw_tail_not_mapped (byte_at ConvertSimMore.rx_img) ConvertSimMore.rx_secs = false /\
+  align_compat 4 0 0 = true /\ prd_va_congruent 4 ConvertSimMore.rx_secs 8 = true /\
+  exists s, view_resources (file_view 0 W32 4194304 4 52 ConvertSimMore.rx_secs ConvertSimMore.rx_img) (Some (8, 44)) = Ok s /\ Resources.rs_len s = 44 /\
+    Resources.fsck s = Ok tt /\
+    fst (Resources.walk 3 s 0 0 10) =
+      [Resources.WItem {| Resources.i_lvl := 0; Resources.i_eoff := 16; Resources.i_named := false; Resources.i_name := Ok (Resources.NId 16);
+                          Resources.i_isdir := false;
+                          Resources.i_tgt := Resources.TData 24 (Ok {| r_off := 40; r_len := 4 |}) 4 0 |}] /\
+    Resources.sec_bytes s 40 4 = [1; 2; 3; 4].
+Proof. exact ConvertSimMore.resources_nonvacuous. Qed.
+
+Example C06_debug_nonvacuous :
+  conv_setting ConvertSimMore.dbx_img 4 36 ConvertSimMore.dbx_secs ConvertSimMore.dbx_V /\ align_compat 4 0 0 = true /\
+  prd_va_congruent 4 ConvertSimMore.dbx_secs 8 = true /\
+  debug_entry_consistent (byte_at ConvertSimMore.dbx_img) 4 ConvertSimMore.dbx_secs ConvertSimMore.dbx_d = true /\
+  res_map (entry_vals (byte_at ConvertSimMore.dbx_img)) (Dirs.dir_entry (file_view 0 W32 4194304 4 36 ConvertSimMore.dbx_secs ConvertSimMore.dbx_img) ConvertSimMore.dbx_d) =
+    Ok (VCv70 ([82; 83; 68; 83] ++ [1;2;3;4;5;6;7;8;9;10;11;12;13;14;15;16] ++ [1;0;0;0]) [97; 0]) /\
+  res_map (entry_vals (byte_at ConvertSimMore.dbx_V)) (Dirs.dir_entry (mapped_view 0 W32 4194304 4 36 ConvertSimMore.dbx_secs ConvertSimMore.dbx_V) ConvertSimMore.dbx_d) =
+    Ok (VCv70 ([82; 83; 68; 83] ++ [1;2;3;4;5;6;7;8;9;10;11;12;13;14;15;16] ++ [1;0;0;0]) [97; 0]).
+Proof. exact ConvertSimMore.debug_nonvacuous. Qed.
+
+Example C06_name_linear_nonvacuous :
+  conv_setting (ConvertSimMore.nl_img 78) 4 96 ConvertSimMore.nl_secs (ConvertSimMore.nl_V 78) /\
+  raw_tail_not_mapped (byte_at (ConvertSimMore.nl_img 78)) ConvertSimMore.nl_secs = false /\
+  align_compat 4 0 0 = true /\
+  exists t, Exports.view_by (ConvertSimMore.nl_vf 78) (Some (16, 40)) = Ok t /\ names_readable (Exports.view_cstr (ConvertSimMore.nl_vf 78)) t = true /\
+    Exports.name_linear (Exports.view_cstr (ConvertSimMore.nl_vf 78)) t [] = Ok (Exports.Symbol 1000) /\
+    Exports.iter (Exports.view_cstr (ConvertSimMore.nl_vf 78)) t = [Ok (Exports.Symbol 1000); Ok (Exports.Symbol 2000)] /\
+    Exports.check_sorted (Exports.view_cstr (ConvertSimMore.nl_vf 78)) t = Ok true.
+Proof. exact ConvertSimMore.name_linear_nonvacuous. Qed.
+
+Example C06_import_nonvacuous :
+  exists t, Exports.view_by (ConvertSimMore.nl_vf 78) (Some (16, 40)) = Ok t /\
+    import_readable (Exports.view_cstr (ConvertSimMore.nl_vf 78)) t (Exports.ByName 0 []) = true /\
+    Exports.get_export_import (ConvertSimMore.nl_vf 78) (Some (16, 40)) (Exports.ByName 0 []) = Ok (Exports.Symbol 1000).
+Proof. exact ConvertSimMore.import_nonvacuous. Qed.
+
+Example C06_unwind_nonvacuous :
+  conv_setting ConvertSimMore.uw_img 4 16 ConvertSimMore.uw_secs ConvertSimMore.uw_V /\
+  raw_tail_not_mapped (byte_at ConvertSimMore.uw_img) ConvertSimMore.uw_secs = false /\
+  Dirs.unwind_info (file_view 0 W32 4194304 4 16 ConvertSimMore.uw_secs ConvertSimMore.uw_img) ConvertSimMore.uw_f = Ok {| r_off := 4; r_len := 6 |} /\
+  Dirs.function_bytes (file_view 0 W32 4194304 4 16 ConvertSimMore.uw_secs ConvertSimMore.uw_img) ConvertSimMore.uw_f = Ok {| r_off := 4; r_len := 4 |} /\
+  Dirs.unwind_info (mapped_view 0 W32 4194304 4 16 ConvertSimMore.uw_secs ConvertSimMore.uw_V) ConvertSimMore.uw_f = Ok {| r_off := 8; r_len := 6 |} /\
+  unwind_vals (byte_at ConvertSimMore.uw_img) {| r_off := 4; r_len := 6 |} = (1, 0, 0, 1, 0, 0, [5; 6]).
+Proof. exact ConvertSimMore.unwind_nonvacuous. Qed.
+
+Example C06_slice_converse_nonvacuous :
+  stored_at ConvertSimMore.nl_secs 76 4 = true /\ stored_at ConvertSimMore.nl_secs 86 0 = false /\
+  slice (ConvertSimMore.nl_vf 86) 76 4 4 = Ok {| r_off := 64; r_len := 4 |} /\ slice (ConvertSimMore.nl_vv 86) 76 4 4 = Ok {| r_off := 76; r_len := 20 |} /\
+  slice (ConvertSimMore.nl_vf 86) 86 0 1 = Err EZeroFill /\ slice (ConvertSimMore.nl_vv 86) 86 0 1 = Ok {| r_off := 86; r_len := 10 |}.
+Proof. exact ConvertSimMore.slice_converse_nonvacuous. Qed.
